@@ -325,7 +325,9 @@ class cisco_type7(uh.GenericHandler):
         hash = to_unicode(hash, "ascii", "hash")
         if len(hash) < 2:
             raise uh.exc.InvalidHashError(cls)
-        salt = int(hash[:2])  # may throw ValueError
+        if not (hash[:2].isascii() and hash[:2].isdigit()):
+            raise uh.exc.MalformedHashError(cls, "salt must be 2 decimal digits")
+        salt = int(hash[:2])
         return cls(salt=salt, checksum=hash[2:].upper())
 
     def __init__(self, salt=None, **kwds):
